@@ -162,6 +162,21 @@ pub fn profile(prop: Prop, thorough: bool) -> Profile {
             p.long_runs = false;
             p.elem = [6, 3, 1];
         }
+        Prop::C17 => {
+            p.weights = cat(&[MAP_BASIC, HANDLES, &scale(MOVERS, 2, 1), &scale(SET_BASIC, 1, 3), &[(G::CloneTo, 2), (G::CloneFrom, 3), (G::TryReserve, 6), (G::Reserve, 4), (G::STryReserve, 2)]]);
+            p.maps = 2;
+            p.sets = 1;
+            p.elem = [5, 4, 1];
+            p.huge_args = true;
+            p.max_len = 60;
+        }
+        Prop::C16 => {
+            p.weights = cat(&[&scale(MAP_BASIC, 1, 2), &scale(HANDLES, 1, 4), MOVERS, &scale(SET_BASIC, 1, 2), &[(G::SerdeMap, 25), (G::SerdeSet, 40)]]);
+            p.maps = 1;
+            p.sets = 3;
+            p.elem = [1, 0, 0];
+            p.keep_pct = 85;
+        }
         Prop::C11 => {
             p.weights = cat(&[MAP_BASIC, &scale(HANDLES, 1, 2), MOVERS, &[(G::CloneTo, 12), (G::CloneFrom, 14), (G::EqCheck, 8)]]);
             p.maps = 3;
@@ -204,6 +219,15 @@ pub fn owns(prop: Prop, a: &Anomaly) -> bool {
         Prop::C11 => matches!(c, "clone-changed-source" | "clone-left-split" | "cross-contents-mismatch") || (semantic && fam == Family::CloneOp) || c == "eq-mismatch",
         Prop::C12 => semantic && fam == Family::Handle,
         Prop::C13 => (semantic || c == "iter-mismatch" || c == "partition-mismatch") && is_set_op(a),
+        Prop::C17 => c == "unexpected-panic",
+        Prop::C16 => (semantic || c == "serde-mismatch") && fam == Family::Serde,
+        Prop::C14 => {
+            c == "eq-mismatch"
+                || c == "iter-mismatch"
+                || (semantic && matches!(fam, Family::Observer | Family::Iter))
+                || (semantic && a.op_kind == "set_algebra")
+                || (semantic && matches!(a.op_kind, "set_debug_check" | "set_iter_check"))
+        }
         _ => false,
     }
 }
